@@ -98,6 +98,21 @@ func (p *parser) form() (*Node, error) {
 			return nil, err
 		}
 		return &Node{Kind: 'l', List: []*Node{sym("quote"), e}}, nil
+	case c == '`' || c == ',':
+		head := "backquote"
+		p.pos++
+		if c == ',' {
+			head = "comma"
+			if p.pos < len(p.src) && p.src[p.pos] == '@' {
+				head = "comma-at"
+				p.pos++
+			}
+		}
+		e, err := p.form()
+		if err != nil {
+			return nil, err
+		}
+		return &Node{Kind: 'l', List: []*Node{sym(head), e}}, nil
 	case c == '#' && p.pos+1 < len(p.src) && p.src[p.pos+1] == '\'':
 		p.pos += 2
 		e, err := p.form()
@@ -107,7 +122,7 @@ func (p *parser) form() (*Node, error) {
 		return &Node{Kind: 'l', List: []*Node{sym("function"), e}}, nil
 	}
 	start := p.pos
-	for p.pos < len(p.src) && !strings.ContainsRune(" \n\t\r()'", rune(p.src[p.pos])) {
+	for p.pos < len(p.src) && !strings.ContainsRune(" \n\t\r()'`,", rune(p.src[p.pos])) {
 		p.pos++
 	}
 	tok := p.src[start:p.pos]
@@ -172,6 +187,17 @@ type Func struct {
 	Env    *env // lexical environment of the defun form (a defun inside let/let*/lambda closes over it)
 }
 
+// Macro is a user macro whose body is one backquote template: (defmacro name
+// (p... [&rest r]) `template). A use is expanded afresh at every evaluation:
+// the template is copied with the (unevaluated) argument forms put in place
+// of ,p and spliced in place of ,@r, then the copy is evaluated in the
+// environment of the use.
+type Macro struct {
+	Params []string
+	Rest   string
+	Tmpl   *Node
+}
+
 type env struct {
 	vars   map[string]Val
 	parent *env
@@ -199,6 +225,7 @@ type Budget struct{}
 // global variables, the trace and a step counter.
 type Machine struct {
 	Funcs   map[string]*Func
+	Macros  map[string]*Macro
 	Globals map[string]Val
 	Trace   []int64
 	Steps   int
@@ -207,7 +234,7 @@ type Machine struct {
 
 // New returns an empty machine with a step budget.
 func New(max int) *Machine {
-	return &Machine{Funcs: map[string]*Func{}, Globals: map[string]Val{}, Max: max}
+	return &Machine{Funcs: map[string]*Func{}, Macros: map[string]*Macro{}, Globals: map[string]Val{}, Max: max}
 }
 
 func fail(format string, a ...any) { panic(&Error{Msg: fmt.Sprintf(format, a...)}) }
@@ -383,7 +410,28 @@ func (m *Machine) eval(n *Node, e *env) Val {
 	if head.Kind != 's' {
 		fail("bad operator")
 	}
+	if mac := m.Macros[head.Sym]; mac != nil {
+		return m.eval(mac.expand(a), e)
+	}
 	switch head.Sym {
+	case "defmacro":
+		mac := &Macro{}
+		ps := a[1].List
+		for i := 0; i < len(ps); i++ {
+			if ps[i].Sym == "&rest" || ps[i].Sym == "&body" {
+				mac.Rest = ps[i+1].Sym
+				break
+			}
+			mac.Params = append(mac.Params, ps[i].Sym)
+		}
+		t := a[2]
+		if t.Kind != 'l' || len(t.List) != 2 || t.List[0].Sym != "backquote" {
+			fail("defmacro body is not a backquote template")
+		}
+		mac.Tmpl = t.List[1]
+		m.Macros[a[0].Sym] = mac
+		delete(m.Funcs, a[0].Sym)
+		return Symbol(a[0].Sym)
 	case "quote":
 		return m.quoted(a[0])
 	case "function":
@@ -681,4 +729,50 @@ func LambdaHeadFree(forms []*Node) bool {
 		walk(f)
 	}
 	return found
+}
+
+func (mac *Macro) expand(args []*Node) *Node {
+	if len(args) < len(mac.Params) || (mac.Rest == "" && len(args) != len(mac.Params)) {
+		fail("macro called with %d arguments", len(args))
+	}
+	bind := map[string]*Node{}
+	for i, p := range mac.Params {
+		bind[p] = args[i]
+	}
+	var rest []*Node
+	if mac.Rest != "" {
+		rest = args[len(mac.Params):]
+	}
+	var walk func(n *Node) *Node
+	walk = func(n *Node) *Node {
+		if n.Kind != 'l' {
+			return n
+		}
+		if len(n.List) == 2 && n.List[0].Kind == 's' && n.List[0].Sym == "comma" {
+			x := n.List[1]
+			if x.Kind == 's' {
+				if f, ok := bind[x.Sym]; ok {
+					return f
+				}
+				if x.Sym == mac.Rest {
+					return &Node{Kind: 'l', List: append([]*Node{}, rest...)}
+				}
+			}
+			fail("unsupported comma expression in macro template")
+		}
+		out := &Node{Kind: 'l'}
+		for _, x := range n.List {
+			if x.Kind == 'l' && len(x.List) == 2 && x.List[0].Kind == 's' && x.List[0].Sym == "comma-at" {
+				y := x.List[1]
+				if y.Kind == 's' && y.Sym == mac.Rest {
+					out.List = append(out.List, rest...)
+					continue
+				}
+				fail("unsupported comma-at expression in macro template")
+			}
+			out.List = append(out.List, walk(x))
+		}
+		return out
+	}
+	return walk(mac.Tmpl)
 }
